@@ -122,6 +122,7 @@ type Sim struct {
 	objKeep     []unsafe.Pointer
 	Procs       int // what runtime.GOMAXPROCS(0) and runtime.NumCPU() report to the library in this run
 	objUsed     int
+	waiters     []*chanWaiter // receivers parked on unbuffered channels (coop.go)
 	conds       []*condShadow // condition variables of the library with simulated waiters (coop.go)
 	keyNums     addrTable     // pointers used as map keys by the library (see maporder.go)
 	objVals     []int32
@@ -744,6 +745,18 @@ func (s *Sim) Run(estSteps int) {
 		if len(elig) == 0 {
 			for i := 0; i < k; i++ {
 				if t := runnable[i]; !t.blocked {
+					elig = append(elig, t)
+				}
+			}
+		}
+		if len(elig) > 0 && len(elig) < k && s.Sched.Draw(4) == 3 {
+			// Some tasks are parked in a cooperative wait. Whether what they
+			// wait for has happened is not tracked per task, so now and then
+			// (one step in four, drawn) they compete with the awake tasks and
+			// retry; otherwise they would only ever run when nobody else can,
+			// and a woken waiter would always be the last to proceed.
+			for i := 0; i < k; i++ {
+				if t := runnable[i]; t.blocked {
 					elig = append(elig, t)
 				}
 			}
